@@ -132,7 +132,9 @@ inductive St
 def kindOfJson (j : Json) : R Kind := do
   match ← fldStr j "kind" with
   | "simple" => pure .simple
-  | "foreign" => pure (.foreign {})
+  | "foreign" =>
+      -- `OneShotFunction(self._registration_expired)` in the constructor installs itself at once
+      pure (.foreign { expireAt := ← fldOptNat j "t0" })
   | "bbmd" =>
       let a ← addrOf (← fld j "addr")
       let up := match fldBool j "upper" with | .ok b => b | .error _ => true
